@@ -7,6 +7,7 @@ import Driver.StackFam
 import Driver.SelFam
 import Driver.PlushyFam
 import Driver.PushFam
+import Driver.BuilderFam
 open Driver
 
 def dispatch (stdin stdout : IO.FS.Stream) (line : String) : IO String := do
@@ -15,6 +16,7 @@ def dispatch (stdin stdout : IO.FS.Stream) (line : String) : IO String := do
   | "sel" :: args => SelFam.handle stdin stdout args
   | "plushy" :: args => pure (PlushyFam.handle args)
   | "push" :: args => pure (PushFam.handle args)
+  | "builder" :: args => pure (BuilderFam.handle args)
   | "ping" :: _ => pure "pong"
   | _ => pure "bad-family"
 
